@@ -59,6 +59,13 @@ def run(ctx):
             for a in sub:
                 for b in sub:
                     add(rnd.choice(opgen.STORES), instr, a, b)
+        # a float operand that is not a number (only reachable through the data interface): all four yield unit, on both
+        # stores, whichever side it is on
+        for nan in ('(f 7ff8000000000000)', '(f fff8000000000001)', '(f 7ff0000000000001)'):
+            for other in ['(i 0)', '(i 1)', '(i -5)', '(i 2147483647)', fterm(0.0), fterm(1.5), fterm(-1e300), nan]:
+                for instr in CMP:
+                    for st in opgen.STORES:
+                        add(st, instr, nan, other); add(st, instr, other, nan)
         # all pairs of strings of length <= 3 over a 3-letter alphabet (incl. proper prefixes, empty), both stores
         alpha = [97, 98, 233]
         strs = [[]]
